@@ -223,6 +223,9 @@ func checkC02(c *core.Ctx) {
 	if err != nil {
 		panic(err)
 	}
+	if b, err := os.ReadFile(sc.PkgAllFoi()); err == nil {
+		fo.FoiText = string(b)
+	}
 	foiB, err := os.ReadFile(sc.PkgAllFoi())
 	if err != nil {
 		panic(err)
